@@ -63,6 +63,11 @@ Definition id_rules (past : list op) (t : option nat) : list sink :=
 
 Definition count (s : sink) (l : list sink) : nat := count_occ Nat.eq_dec l s.
 
+(* the rule in force for a key: the one of the LATEST add_rule for it - adding a rule for a route prefix /
+   test id that already has one re-maps the key (the earlier rule is gone; its sink stays registered for
+   startTestRun/stopTestRun if it was: `registered` above never forgets) *)
+Definition current {A} (l : list A) : option A := hd_error (rev l).
+
 (* ---------- the statement, executable ---------- *)
 (* every sink k < n newly received exactly the calls f k *)
 Definition new_is (n : nat) (f : sink -> list call) (new : list (list call)) : bool :=
@@ -94,10 +99,9 @@ Definition handed (n : nat) (new : list (list call)) (e : event) (p : seg) (sc :
 (* no rule for the route code: the rule for the test id, otherwise the fallback, otherwise an error *)
 Definition by_id_or_fallback (i : input) (past : list op) (e0 : event) (so : step_obs) : bool :=
   let n := n_sinks i in
-  match id_rules past (e_id e0) with
-  | (_ :: _) as ss =>
-      negb (s_raised so) && existsb (fun s => new_is n (only s (St e0)) (s_new so)) ss
-  | [] =>
+  match current (id_rules past (e_id e0)) with
+  | Some s => negb (s_raised so) && new_is n (only s (St e0)) (s_new so)
+  | None =>
       match fb i with
       | Some f => negb (s_raised so) && new_is n (only f (St e0)) (s_new so)
       | None => s_raised so && new_is n nobody (s_new so)
@@ -108,9 +112,9 @@ Definition status_okb (i : input) (past : list op) (via : list seg) (e : event) 
   let e0 := pushed via e in                       (* what the StreamToQueue chain hands to the router *)
   match first_seg (e_route e0) with
   | Some p =>
-      match prefix_rules past p with
-      | (_ :: _) as rs => negb (s_raised so) && existsb (handed (n_sinks i) (s_new so) e0 p) rs
-      | [] => by_id_or_fallback i past e0 so
+      match current (prefix_rules past p) with
+      | Some sc => negb (s_raised so) && handed (n_sinks i) (s_new so) e0 p sc
+      | None => by_id_or_fallback i past e0 so
       end
   | None => by_id_or_fallback i past e0 so
   end.
@@ -159,17 +163,16 @@ Definition Rel (consume : bool) (p : seg) (e d : event) : Prop :=
 Definition Status_spec (i : input) (past : list op) (via : list seg) (e : event) (so : step_obs) : Prop :=
   let e0 := pushed via e in
   let n := n_sinks i in
-  let no_prefix_rule := forall p, first_seg (e_route e0) = Some p -> prefix_rules past p = [] in
-  (* a rule for the first segment of the route code *)
-  (forall p, first_seg (e_route e0) = Some p -> prefix_rules past p <> [] ->
+  let no_prefix_rule := forall p, first_seg (e_route e0) = Some p -> current (prefix_rules past p) = None in
+  (* a rule for the first segment of the route code: the latest one added for it *)
+  (forall p s c, first_seg (e_route e0) = Some p -> current (prefix_rules past p) = Some (s, c) ->
      s_raised so = false
-     /\ exists s c d, In (s, c) (prefix_rules past p) /\ Rel c p e0 d /\ New_is n (only s (St d)) (s_new so))
-  (* otherwise a rule for the test id *)
-  /\ (no_prefix_rule -> id_rules past (e_id e0) <> [] ->
-     s_raised so = false
-     /\ exists s, In s (id_rules past (e_id e0)) /\ New_is n (only s (St e0)) (s_new so))
+     /\ exists d, Rel c p e0 d /\ New_is n (only s (St d)) (s_new so))
+  (* otherwise a rule for the test id: the latest one added for it *)
+  /\ (no_prefix_rule -> forall s, current (id_rules past (e_id e0)) = Some s ->
+     s_raised so = false /\ New_is n (only s (St e0)) (s_new so))
   (* otherwise the fallback *)
-  /\ (no_prefix_rule -> id_rules past (e_id e0) = [] ->
+  /\ (no_prefix_rule -> current (id_rules past (e_id e0)) = None ->
      match fb i with
      | Some f => s_raised so = false /\ New_is n (only f (St e0)) (s_new so)
      | None => s_raised so = true /\ New_is n nobody (s_new so)
@@ -220,10 +223,16 @@ Definition wfb (i : input) : bool :=
   && forallb route_wf (status_routes (ops i)).
 Definition wf (i : input) : Prop := wfb i = true.
 
-(* the sinks of different rules (and the fallback) are distinct objects; one rule per key *)
+(* the sinks of different rules (and the fallback) are distinct objects; one rule per key.  No theorem needs
+   this any more: it implies reg_once for every sink (C18_distinct_once). *)
 Definition wf_distinctb (i : input) : bool :=
   nodupb Nat.eqb (all_sinks i) && nodupb Nat.eqb (prefix_keys (ops i)) && nodupb id_eqb (id_keys (ops i)).
 Definition wf_distinct (i : input) : Prop := wf_distinctb i = true.
+
+(* sink s was asked to receive startTestRun/stopTestRun at most once (as the fallback of a router built with
+   do_start_stop_run, or by ONE add_rule(.., do_start_stop_run=True)); it may serve any number of rules, be the
+   fallback as well, and its rules may be re-mapped *)
+Definition reg_once (i : input) (s : sink) : Prop := count s (registered i (ops i)) <= 1.
 
 (* for C18_start_stop: the startTestRun/stopTestRun calls among the calls a sink received *)
 Definition is_start_stop (c : call) : bool := match c with St _ => false | _ => true end.
